@@ -34,6 +34,19 @@ def generate(rng, tier):
     for L in range(1, (5 if tier == "quick" else 6)):
         for tup in itertools.product(toks, repeat=L):
             texts.append(b"".join(tup))
+    # a skipped blank-only line must leave nothing behind for the next line: blank-only lines whose first space sits in
+    # every column 0..24 (after tabs / CR / FF / VT), then 0-2 empty lines, then a command whose argument has spaces in
+    # every even or every odd column
+    spaced = [b"@exec a b c d e f g h i j k l m", b"@cwd a b c d e f g h i j k l m n", b"@comment x y z w v u t s r q p o", b"@unexec  rm -f a b c d e f g h i j",
+              b"bin/a b c d e f g h i j k l m n o", b"@ignore x y z a b c d e f g h i j"]
+    for col in range(25):
+        for wsb in (b"\t", b"\r", b"\x0c", b"\x0b"):
+            blank = wsb * col + b" " + (wsb if col % 3 == 0 else b"")
+            for li, line in enumerate(spaced):
+                gap = b"\n" * (1 + (col + li) % 3)
+                texts.append(blank + gap + line + b"\n")
+                if li == col % len(spaced):
+                    texts.append(b"bin/first\n" + blank + gap + line + b"\n" + blank + b"\n" + spaced[(li + 1) % len(spaced)] + b"\n")
     for t in texts:
         lines = t.split(b"\n")
         nonblank = [l for l in lines if any(c not in ASCII_WS for c in l)]
